@@ -91,12 +91,14 @@ pub struct RoCase {
     pub name: String,
     pub touch: bool,
     pub checker: bool,
+    /// the levels are named by paths relative to the working directory ("ro0", "nested/ro1", ...)
+    pub relative: bool,
 }
 
 impl RoCase {
     fn to_json(&self) -> Value {
         json!({"ro": true, "levels": self.levels.iter().map(|l| json!([l.0, l.1])).collect::<Vec<_>>(),
-               "name_bytes": self.name.as_bytes(), "touch": self.touch, "checker": self.checker})
+               "name_bytes": self.name.as_bytes(), "touch": self.touch, "checker": self.checker, "relative": self.relative})
     }
     fn from_json(v: &Value) -> RoCase {
         RoCase {
@@ -104,6 +106,7 @@ impl RoCase {
             name: String::from_utf8(v["name_bytes"].as_array().unwrap().iter().map(|b| b.as_u64().unwrap() as u8).collect()).unwrap(),
             touch: v["touch"].as_bool().unwrap(),
             checker: v["checker"].as_bool().unwrap(),
+            relative: v["relative"].as_bool().unwrap_or(false),
         }
     }
 }
@@ -116,6 +119,7 @@ fn run_ro(case: &RoCase, rep: &mut Report) -> Vec<(String, String)> {
     let key = ops::K { name: case.name.clone(), ..the_key() };
     let mut b = kismet_cache::ReadOnlyCacheBuilder::new();
     let mut roots = Vec::new();
+    let mut specs: Vec<(bool, PathBuf)> = Vec::new();
     for (i, &(sharded, state)) in case.levels.iter().enumerate() {
         let root = sc.path(&format!("ro{}", i));
         if state >= 1 {
@@ -148,18 +152,27 @@ fn run_ro(case: &RoCase, rep: &mut Report) -> Vec<(String, String)> {
                 world::plant(&d.join("sub/file"), b"nested", 0o644, old, old + 1);
             }
         }
-        if sharded {
-            b.sharded(&root, NSHARDS);
-        } else {
-            b.plain(&root);
+        // (named relative to the scratch root, which is then the working directory while the handle is built and used)
+        let named: PathBuf = if case.relative { root.strip_prefix(&sc.root).unwrap().to_path_buf() } else { root.clone() };
+        if case.relative {
+            std::env::set_current_dir(&sc.root).unwrap();
         }
+        specs.push((sharded, named));
         roots.push(root);
+    }
+    // (the state is recorded before the handle is built: registering a level is not allowed to create anything either)
+    let before: Vec<Snapshot> = roots.iter().map(|r| world::snapshot(r)).collect();
+    for (sharded, named) in &specs {
+        if *sharded {
+            b.sharded(named, NSHARDS);
+        } else {
+            b.plain(named);
+        }
     }
     if case.checker {
         b.byte_equality_checker();
     }
     let cache = b.take().build();
-    let before: Vec<Snapshot> = roots.iter().map(|r| world::snapshot(r)).collect();
     let touch = case.touch;
     let (r, trace) = run::as_participant(0, 0, || {
         if touch {
@@ -174,6 +187,9 @@ fn run_ro(case: &RoCase, rep: &mut Report) -> Vec<(String, String)> {
         }
     });
     rep.transitions += trace.len() as u64;
+    if case.relative {
+        std::env::set_current_dir("/").unwrap();
+    }
     let after: Vec<Snapshot> = roots.iter().map(|r| world::snapshot(r)).collect();
     let mut bad = Vec::new();
     if let Err(p) = r {
@@ -226,7 +242,11 @@ fn ro_cases() -> Vec<RoCase> {
                     if checker && touch {
                         continue;
                     }
-                    out.push(RoCase { levels: levels.clone(), name: name.clone(), touch, checker });
+                    out.push(RoCase { levels: levels.clone(), name: name.clone(), touch, checker, relative: false });
+                    // the same levels named by relative paths, when one of them is missing or empty
+                    if !checker && levels.len() <= 2 && levels.iter().any(|l| l.1 <= 1) && matches!(name.as_str(), "key" | "absent" | "") {
+                        out.push(RoCase { levels: levels.clone(), name: name.clone(), touch, checker, relative: true });
+                    }
                 }
             }
         }
@@ -373,7 +393,7 @@ pub fn run(_tier: Tier, shard: Shard, rep: &mut Report) {
     set_tier(_tier);
     rep.rule = "(i) every cell of the C13 matrix and of the C14 matrix with a checker that has at least one read-only level; \
         (ii) ReadOnlyCache alone with 1-3 levels, each plain or sharded and each root missing / empty / populated / populated \
-        without the key's shard directories / holding the files of the other layout (the key's name directly under a sharded root, shard directories under a plain root), under get and touch (with and without checker) of present, absent, reserved, \
+        without the key's shard directories / holding the files of the other layout (the key's name directly under a sharded root, shard directories under a plain root), also named by relative paths when a root is missing or empty, under get and touch (with and without checker) of present, absent, reserved, \
         NUL-containing and separator-containing names. Oracle: no mutating call (open for writing/creating, mkdir, rename, link, \
         unlink, chmod, truncate, write, mtime-setting utimens) targets a read-only root; recursive snapshots equal except atime \
         advancing on a found entry; missing roots stay missing. Non-trivial = a read-only level holds a copy / a degenerate root \
